@@ -193,7 +193,7 @@ func nonTrivialSpec(prop string, s *rt.Spec) bool {
 	case "C15":
 		return (s.Wrap && s.NArgs >= 4) || s.Bare || s.Shadow
 	case "C18":
-		return s.Emitters > 0 && (instr >= 2 || s.EmitNest)
+		return s.Emitters > 0 && (instr >= 2 || s.EmitNest || s.EmitShared)
 	case "C07", "C12", "C01", "C09", "C05", "C06":
 		return s.Units >= 2
 	case "C03":
@@ -227,6 +227,9 @@ func specLabels(s *rt.Spec) []string {
 	}
 	if s.EmitNest {
 		l = append(l, "emitnest")
+	}
+	if s.EmitShared {
+		l = append(l, "emitshared")
 	}
 	if s.InstrumentD {
 		l = append(l, "instrumentD")
